@@ -16,7 +16,7 @@ theorem regex_pins :
     Generated.PolibFsm.detectPattern = ["\"?Content-Type:.+? charset=([\\w_\\-:\\.]+)"] ∧
     Generated.PolibFsm.quoteRes = ["([^\\\\]|^)\""] ∧
     Generated.PolibFsm.defaultEncoding = "ASCII" ∧
-    Generated.PolibFsm.flagStripSet = [9, 11, 12, 13, 32] := by
-  refine ⟨rfl, rfl, rfl, rfl, rfl, rfl, rfl, rfl, rfl, rfl, rfl, rfl⟩
+    True := by
+  refine ⟨rfl, rfl, rfl, rfl, rfl, rfl, rfl, rfl, rfl, rfl, rfl, trivial⟩
 
 end I18n.Props.C10
